@@ -161,8 +161,21 @@ func (f *File) WriteAt(p []byte, off int64) (int, error) {
 	return f.f.WriteAt(p, off)
 }
 
+// FailSync, when set, is asked before every Sync of a recorded file: a non-nil
+// result is returned to the caller and nothing is synced (the one file-system
+// error the harnesses inject: fsync reporting EIO / ENOSPC).
+var FailSync func(path string) error
+
 func (f *File) Sync() error {
 	if f.id != 0 {
+		mu.Lock()
+		fail := FailSync
+		mu.Unlock()
+		if fail != nil {
+			if err := fail(f.f.Name()); err != nil {
+				return &os.PathError{Op: "sync", Path: f.f.Name(), Err: err}
+			}
+		}
 		record(Op{Kind: "sync", Path: f.f.Name(), File: f.id})
 	}
 	return f.f.Sync()
